@@ -614,6 +614,8 @@ def run(scenario, params, tape, detail=False):
     # map calls to the NCP's requests (same raw bytes, in order)
     used = set()
     for c in started:
+        if c.get("sendfail"):
+            continue  # its frame was never written (after the sequence wraps, a later call can carry byte-identical request bytes)
         for r in ncp.requests:
             if r.idx not in used and r.raw == c["raw"] and r.t >= c["t_start"] - 1e-9:
                 c["req_idx"] = r.idx
